@@ -65,6 +65,7 @@ def _patched_run(factory, nsteps_max=None):
                 def wrapped_clone(self, *a, **kw):
                     out = oc(self, *a, **kw)
                     out.__dict__["_verif_fr"] = list(self.__dict__.get("_verif_fr", []))
+                    out.__dict__["_verif_inherited"] = len(out.__dict__["_verif_fr"])
                     return out
                 return wrapped_clone
             clones.append((cls_, oc))
@@ -186,13 +187,13 @@ ORACLES = {"restart_energy": oracle_restart_energy, "hop_energy": oracle_hop_ene
 
 
 # ------------------------------------------------------------------------------------------------
-def _run_specs(ctx, count):
+def _run_specs(ctx, count, only=None):
     rng = ctx.rng
     specs = []
     for i in range(count):
         N = int(rng.integers(2, 5))
         n = int(rng.integers(1, 4))
-        cls = hc.CLASSES[i % 4]
+        cls = only or hc.CLASSES[i % 4]
         spec = dict(cls=cls, N=N, n=n, model_seed=int(rng.integers(1, 10 ** 6)), seed=int(rng.integers(1, 10 ** 6)),
                     x0=list(rng.normal(size=n) * 0.5), p0=list(rng.normal(size=n) * 8.0 + 3.0),
                     state=int(rng.integers(0, N)), dt=float(rng.choice([0.25, 0.5, 1.0])), steps=int(ctx.budget(150, 400)),
@@ -303,8 +304,21 @@ def run(ctx):
                               "model x %r v %r ke %r; impl x %r v %r ke %r" % (mx, mv, mke, t.position, t.velocity, ke))
 
     # ---------------- run level ----------------
-    for spec in _run_specs(ctx, ctx.budget(16, 200)):
+    # (batches of random runs are added until a minimum of accepted and rejected hops has been seen: see C04)
+    specs = _run_specs(ctx, ctx.budget(16, 200))
+    seen_acc = seen_rej = 0
+    k_ = -1
+    while True:
+        k_ += 1
+        if k_ >= len(specs):
+            if (seen_acc >= 60 and seen_rej >= 20) or len(specs) >= ctx.budget(64, 400):
+                break
+            specs += _run_specs(ctx, 8)
+            ctx.count("run_batches_added_for_minimum_events")
+        spec = specs[k_]
         ok, obs, req, text = oracle_run_hops(spec)
+        seen_acc += int(obs.get("accepted", 0))
+        seen_rej += int(obs.get("rejected", 0))
         ctx.case(("run", spec["cls"], spec["N"], spec["n"], obs["accepted"] > 0, obs["rejected"] > 0), None)
         ctx.count("run:%s" % spec["cls"])
         ctx.count("run_hops_accepted", obs["accepted"])
